@@ -830,7 +830,7 @@ func TestCheck(t *testing.T) {
 			"{0, 50ms, 10s, 1h} incl. asymmetric ones. Oracle: provenance monitor (see package comment) + every review caused by a request is received by the cluster owning the host. " +
 			"Production wiring (8 worlds in quick, 60 in thorough): real controller = Manager = ClientProvider, authenticator/authorizer from the production config constructors, real handler chain, HTTP stub upstreams serving " +
 			"TokenReview/SAR and recording the impersonated identity of forwarded requests; sequential and 4-client concurrent phases, alias moves, requests whose TLS connection state carries a server name " +
-			"different from the Host header (another cluster's name / alias, unknown, empty), an alias move made while a request for that alias is inside the handler chain (just before its token is authenticated / its impersonation is authorized; one-shot hook at the authenticator's position, no timing), and after every alias move an outage of the new owner (its endpoint fails the health probes) with fresh credentials, then recovery. " +
+			"different from the Host header (another cluster's name / alias, unknown, empty), an alias move made while a request for that alias is inside the handler chain (just before its token is authenticated / its impersonation is authorized, or right after the authenticator / authorizer has returned and before dispatch; one-shot hooks at their positions, no timing), and after every alias move an outage of the new owner (its endpoint fails the health probes) with fresh credentials, then recovery. " +
 			"Non-trivial = the scenario contains at least two hosts of different clusters asked with the same credentials; distinct = hash of the operation list.")
 		r.Assume("a cached answer that the host's own cluster gave earlier may be applied while that cluster has no ready endpoint (the statement only forbids deciding from another cluster's answer)")
 		r.Assume("Hostname in ExtraRequestInfo is lower-case without port, as the production ExtraRequestInfoFactory produces it")
